@@ -59,6 +59,7 @@ def host_scenarios(draw):
     actors = []
     nw = draw(st.integers(1, 5))
     switches = draw(st.booleans())
+    fractional = nw <= cores and draw(st.booleans())      # bounded executions (fractional load): only when nothing has to be shared
     for k in range(nw):
         local = draw(st.booleans())
         ops = []
@@ -66,7 +67,12 @@ def host_scenarios(draw):
             if draw(st.integers(0, 3)) == 0:
                 ops.append(["sleep", draw(QUART)])
             else:
-                ops.append(["exec", draw(FLOPS), {} if local else {"host": "h0"}])
+                opts = {} if local else {"host": "h0"}
+                if fractional and draw(st.booleans()):
+                    opts["bound"] = draw(st.sampled_from([256.0, 128.0, 384.0]))
+                elif cores >= 2 and draw(st.integers(0, 4)) == 0:
+                    opts["threads"] = 2
+                ops.append(["exec", draw(FLOPS), opts])
             if draw(st.integers(0, 4)) == 0:
                 ops.append(["energy", "h0"])
         actors.append({"name": "w%d" % k, "host": "h0" if local else "hc", "ops": ops})
@@ -184,12 +190,14 @@ def host_timeline(case, log):
     execs = []          # (start, end) of the executions on h0
     t_end = max([T(l["t"]) for l in log.lines if "t" in l] or [0.0])
     died = {l["a"]: T(l["t"]) for l in log.of("actor_end")}
+    speeds = h0["speed"] if isinstance(h0["speed"], list) else [h0["speed"]]
     for o in ops:
         if o["op"][0] == "exec":
-            execs.append((o["t_req"], o["t_ret"] if o["t_ret"] is not None else died.get(o["a"], t_end)))
+            opts = o["op"][2] if len(o["op"]) > 2 else {}
+            execs.append((o["t_req"], o["t_ret"] if o["t_ret"] is not None else died.get(o["a"], t_end), opts.get("threads", 1), opts.get("bound")))
     pst = [(0.0, 0)] + [(o["t_req"], o["op"][2]) for o in ops if o["op"][0] == "set_pstate" and "exc" not in o]
     onoff = [(0.0, True)] + [(T(l["t"]), l["on"]) for l in log.of("onoff") if l["res"] == "host" and l["name"] == "h0"]
-    breaks = [a for a, _ in execs] + [b for _, b in execs] + [d for d, _ in pst] + [d for d, _ in onoff]
+    breaks = [x[0] for x in execs] + [x[1] for x in execs] + [d for d, _ in pst] + [d for d, _ in onoff]
 
     def power(a, b):
         m = (a + b) / 2
@@ -198,11 +206,14 @@ def host_timeline(case, log):
             return off_w
         p = [v for d, v in pst if d <= a][-1]
         idle, eps, mx = wps[p]
-        k = sum(1 for s, e in execs if s <= a and e >= b and e > s)
-        if k == 0:
+        run = [x for x in execs if x[0] <= a and x[1] >= b and x[1] > x[0]]
+        if not run:
             return idle
-        return eps + min(1.0, k / cores) * (mx - eps)
-    return Timeline(breaks, power), dict(execs=execs, pst=pst, onoff=onoff, cores=cores)
+        # used cores: a bounded execution uses bound / speed of a core, a multi-threaded one its number of threads
+        used = sum((min(x[3], speeds[p]) / speeds[p]) if x[3] is not None else x[2] for x in run)
+        return eps + min(1.0, used / cores) * (mx - eps)
+    return Timeline(breaks, power), dict(execs=[(x[0], x[1]) for x in execs], pst=pst, onoff=onoff, cores=cores,
+                                         fractional=any(x[3] is not None for x in execs), threads=any(x[2] > 1 for x in execs))
 
 
 def link_timeline(case, log):
@@ -300,6 +311,10 @@ def check_c23(case, log, oc, labels):
             labels.add("partial-load")
         if any(k > info["cores"] for k in ks):
             labels.add("more-execs-than-cores")
+        if info["fractional"]:
+            labels.add("bounded-exec")
+        if info["threads"]:
+            labels.add("multi-threaded-exec")
         oc.nontrivial = bool({"pstate-change-while-running", "switch-off-while-running"} & labels)
     else:
         if len(info["onoff"]) > 1:
